@@ -289,6 +289,14 @@ def check_relocation(ctx):
         ctx.fn("MemoryManager.get_new_qubit_address")
         d = A.single_defs(g)
         inuse = [k for k, v in d.items() if A.norm(v) == "[q.qubit_idforqinself._active_qubits]"]
+        # the first id, counting from 0, that is not in use: as a loop with an early return, or as next(<generator>)
+        for r_ in A.returns(g):
+            v_ = r_.value
+            if isinstance(v_, ast.Call) and A.norm(v_.func) == "next" and len(v_.args) == 1 and isinstance(v_.args[0], ast.GeneratorExp) and inuse:
+                ge = v_.args[0]
+                if len(ge.generators) == 1 and A.norm(ge.generators[0].iter) == "count(0)" and isinstance(ge.generators[0].target, ast.Name) \
+                        and A.norm(ge.elt) == ge.generators[0].target.id and [A.norm(c_) for c_ in ge.generators[0].ifs] == [f"{ge.generators[0].target.id}notin{inuse[0]}"]:
+                    ok = True
         for lp in [n for n in ast.walk(g) if isinstance(n, ast.For)]:
             if A.norm(lp.iter) == "count(0)" and inuse:
                 for st in lp.body:
@@ -332,6 +340,9 @@ def check_new_handle_ids(ctx):
                     return "0 after relocating the occupant of id 0" if freed0 else None
                 if isinstance(e, ast.Call) and A.call_name(e) == "get_new_qubit_address" and not e.args:
                     return "get_new_qubit_address()"
+                if isinstance(e, ast.IfExp):
+                    a_, b_ = fresh(e.body), fresh(e.orelse)
+                    return f"{a_} | {b_}" if a_ and b_ else None
                 if isinstance(e, ast.Name):
                     ds = mdefs.get(e.id, [])
                     if ds and all(fresh(d) for d in ds):
@@ -342,8 +353,15 @@ def check_new_handle_ids(ctx):
                         for x in ast.walk(st):
                             if isinstance(x, ast.Assert) and A.norm(x.test) in (f"notself._mem_mgr.is_qubit_id_used({e.id})",):
                                 # the assert may sit in the non-zero arm of `if id == 0`
-                                outer = [(A.norm(tt), pol) for tt, pol in G.path_conditions(fn, call)]
-                                t = [(A.norm(tt), pol) for tt, pol in G.path_conditions(fn, x)]
+                                sdefs = A.single_defs(fn)
+
+                                def lit(tt, pol):
+                                    # a flag local (`add_new_command = final_id != 0`) stands for the comparison it was bound to
+                                    if isinstance(tt, ast.Name) and isinstance(sdefs.get(tt.id), (ast.Compare, ast.UnaryOp)):
+                                        tt, pol = G._literal(sdefs[tt.id], pol)
+                                    return (A.norm(tt), pol)
+                                outer = [lit(tt, pol) for tt, pol in G.path_conditions(fn, call)]
+                                t = [lit(tt, pol) for tt, pol in G.path_conditions(fn, x)]
                                 t = [y for y in t if y not in outer]
                                 if not t or (all(txt == f"{e.id}==0" and not pol for txt, pol in t) and freed0):
                                     asserted = True
@@ -362,7 +380,7 @@ def check_new_handle_ids(ctx):
     for st in init.body:
         if isinstance(st, ast.If) and A.norm(st.test) == "virtual_addressisNone":
             ok = any(isinstance(s2, (ast.Assign, ast.AnnAssign)) and A.norm(s2.value) == "self.builder.new_qubit_id()" for s2 in st.body) and \
-                any(isinstance(s2, ast.Assign) and A.norm(s2.value) == "virtual_address" for s2 in st.orelse)
+                any(isinstance(s2, (ast.Assign, ast.AnnAssign)) and s2.value is not None and A.norm(s2.value) == "virtual_address" for s2 in st.orelse)
     ctx.check("C09.I", "Qubit.__init__:lowest-unused-id-when-none-given", ok, "the Qubit constructor does not take builder.new_qubit_id() when no virtual address is given", qc.loc(init))
     nq = b.methods.get("new_qubit_id")
     ok = nq is not None and any(A.norm(r.value) == "self._mem_mgr.get_new_qubit_address()" for r in A.returns(nq))
